@@ -228,3 +228,59 @@ Proof.
   intros Hn. destruct x as [a b], y as [c d]. unfold q2eq, q2mul, q2div, q2mul. cbn [fst snd] in *.
   rewrite !Qred_correct. split; field; exact Hn.
 Qed.
+
+(* ------------------------------------------------------------------------------------------ *)
+(* composed statements (correction round): distribution, sampler answer                         *)
+(* ------------------------------------------------------------------------------------------ *)
+Section Composed.
+  Variable gate : Type.
+  Variable state : Type.
+  Variable apply : gate -> list nat -> state -> state.
+  Variable p1 : state -> nat -> Q.
+  Variable proj : state -> nat -> bool -> state.
+  Variable flipx : state -> nat -> state.
+  Variable tol : Q.
+  Hypothesis p1_range : forall s q, (0 <= p1 s q <= 1)%Q.
+  Open Scope Q_scope.
+
+  Lemma in_le_total (l : list (N * Q)) : (forall k p, In (k, p) l -> 0 < p) -> forall k p, In (k, p) l -> p <= total l.
+  Proof.
+    induction l as [|[k' p'] r IH]; intros Hp k p HI; [destruct HI|]. cbn [total fold_right snd]. fold (total r).
+    assert (0 <= total r).
+    { clear IH HI. assert (Hr : forall k p, In (k, p) r -> 0 < p) by (intros; eapply Hp; right; eauto).
+      induction r as [|[k2 p2] r2 IH2]; cbn; [lra|]. fold (total r2).
+      assert (0 < p2) by (eapply Hr; left; reflexivity).
+      assert (0 <= total r2) by (apply IH2; [intros; eapply Hp; destruct H0 as [E|H0]; [left; exact E|right; right; exact H0]|intros; eapply Hr; right; eauto]). lra. }
+    assert (0 < p') by (eapply Hp; left; reflexivity).
+    destruct HI as [E|HI]; [inversion E; subst; lra|].
+    assert (p <= total r) by (eapply IH; [intros; eapply Hp; right; eauto|exact HI]). lra.
+  Qed.
+
+  (* tolerance 0 AND p1 a probability: the answer is a probability distribution (distinct outcomes, every value in
+     (0,1], total 1) and it is the path law *)
+  Theorem simulate_distribution : tol == 0 -> forall s0 (p : prog gate), existsb refusing p = false ->
+    exists out, simulate apply p1 proj flipx tol s0 p = Ok out /\ NoDup (map fst out) /\
+      (forall k pr, In (k, pr) out -> 0 < pr <= 1) /\ total out == 1 /\
+      forall k, lookup out k == lookup (path_law apply p1 proj flipx p s0 0%N) k.
+  Proof.
+    intros Ht s0 p H. destruct (simulate_pushforward _ _ apply p1 proj flipx tol Ht s0 p H) as [out [E [ND L]]].
+    assert (T : total out == 1) by (eapply simulate_total; eauto).
+    assert (Ht0 : 0 <= tol) by (rewrite Ht; lra).
+    assert (S : forall k pr, In (k, pr) out -> 0 < pr) by (eapply simulate_support; eauto).
+    exists out. split; [assumption|]. split; [assumption|]. split; [|split; assumption].
+    intros k pr HI. split; [eapply S; eauto|]. rewrite <- T. eapply in_le_total; eauto.
+  Qed.
+
+  (* the ExactSampler answer for ONE circuit that passes Qiskit's validation, composed down to the path law:
+     every outcome within 2 * (#measure + #reset) * tol below its path-law probability, never above (equality at tol 0) *)
+  Theorem sampler_answer : 0 <= tol -> forall ncl s0 (p : prog gate),
+    ncl <> 0%nat -> existsb is_measure p = true -> existsb refusing p = false ->
+    exists out, sampler apply p1 proj flipx tol ncl s0 p = Ok out /\ NoDup (map fst out) /\
+      forall k, lookup (path_law apply p1 proj flipx p s0 0%N) k - (2 # 1) * inject_Z (Z.of_nat (count_nonunitary p)) * tol
+                <= lookup out k <= lookup (path_law apply p1 proj flipx p s0 0%N) k.
+  Proof.
+    intros Ht ncl s0 p Hn Hm H. unfold sampler. apply Nat.eqb_neq in Hn. rewrite Hn, Hm. cbn [negb].
+    destruct (simulate_tree_law _ _ apply p1 proj flipx tol s0 p H) as [out [E [ND _]]].
+    exists out. repeat split; auto; eapply (simulate_outcome_bound_static _ _ apply p1 proj flipx tol p1_range Ht); eauto.
+  Qed.
+End Composed.
